@@ -52,6 +52,7 @@ def run(ck, fb):
     r04e(ck, fb)
     r04f(ck, fb)
     r04g(ck, fb)
+    r04h(ck, fb)
 
 
 def r04a(ck, fb):
@@ -308,3 +309,32 @@ def r04g(ck, fb):
                        'SaveLastAppliedLog is sent before the batch was handed to the state machine')
             nxt = h.blocks[sv[0][0].bb]['t'].get('t')
             ck.require(sv[0][0].bb not in cfg.reach_from(h, [nxt]), 'R04g', 'apply_batch:save-once', sv[0][0].where(), 'SaveLastAppliedLog inside the loop')
+
+
+def r04h(ck, fb):
+    ck.rule('R04h', 'one process per data directory: RaftIndexManager::new takes the db_lock file through try_lock, which calls '
+                    'fs2 try_lock_exclusive and returns Err when the lock is held; the lock file handle is kept in the manager (field lock_file) '
+                    'and released only in Drop')
+    tl = ck.body(RI + 'RaftIndexManager::try_lock', 'R04h')
+    if tl:
+        lk = tl.calls(r'FileExt>::try_lock_exclusive$|FileExt::try_lock_exclusive$|try_lock_exclusive$')
+        ck.require(len(lk) == 1, 'R04h', 'try_lock:exclusive', tl.where(), 'the data directory lock is not taken exclusively (try_lock_exclusive)')
+        errs = [i for (i, j, st) in tl.aggregates(r'std::result::Result$', 'Err')]
+        ok = False
+        for i in errs:
+            for a in cfg.guard_atoms(tl, i):
+                if a[0] == 'call' and (a[1] or '').endswith('is_err') and a[2] is True:
+                    ok = True
+        ck.require(ok, 'R04h', 'try_lock:refuses-second-process', tl.where(), 'a held lock does not make try_lock fail')
+        cs = [c.get('s') for (bb, c) in tl.consts() if 's' in c]
+        ck.require('db_lock' in cs, 'R04h', 'try_lock:file-name', tl.where(), 'lock file name changed (%s)' % cs[:3])
+    nw = ck.body(RI + 'RaftIndexManager::new', 'R04h')
+    if nw:
+        c = nw.calls(re.escape(RI + 'RaftIndexManager::try_lock') + '$')
+        agg = nw.aggregates(r'raftindex::RaftIndexManager$')
+        ok = len(c) == 1 and len(agg) == 1
+        if ok:
+            rv = agg[0][2]['rv']
+            t = Taint(nw, local_src=[c[0].dst] if isinstance(c[0].dst, int) else [])
+            ok = t.op_tainted(rv['ops'][rv['fields'].index('lock_file')])
+        ck.require(ok, 'R04h', 'new:holds-lock', nw.where(), 'RaftIndexManager::new does not take and keep the directory lock')
